@@ -22,25 +22,29 @@ CONSTANTS K,            \* services (= listener tokens) 1..K
 
 Svc == 1..K
 
-VARIABLES ws, status, rs, fs, rk, cq, sq, live, now, timer, start, waiting, replies,
-          calls, created, drained, nconn, nnr, ncp, nstops,     \* bookkeeping / ghosts
+VARIABLES ws, status, rs, fs, rk, cq, sq, live, since, due, waiting, replies,
+          calls, called, lastCalled, fifoOk, created, drained, nconn, nnr, ncp, nstops,     \* bookkeeping / ghosts
           pe, act                                                 \* events of the last poll, label
-vars == <<ws, status, rs, fs, rk, cq, sq, live, now, timer, start, waiting, replies, calls, created,
-          drained, nconn, nnr, ncp, nstops, pe, act>>
-View == <<ws, status, rs, fs, rk, cq, sq, live, now, timer, start, waiting, replies, created, drained, nconn, nnr, ncp, nstops>>
+vars == <<ws, status, rs, fs, rk, cq, sq, live, since, due, waiting, replies, calls, called, lastCalled, fifoOk,
+          created, drained, nconn, nnr, ncp, nstops, pe, act>>
+\* state-based predicates read only variables of the view; predicates over the events of a poll (pe) and over the
+\* call history are action properties (evaluated by TLC on every generated transition, so the view cannot hide them)
+View == <<ws, status, rs, fs, rk, cq, sq, live, since, due, waiting, replies, created, drained, called, lastCalled,
+          fifoOk, nconn, nnr, ncp, nstops>>
 
 Init == /\ ws = "Unavailable" /\ status = [k \in Svc |-> "Unavailable"]
         /\ rs = [k \in Svc |-> <<>>] /\ fs = [k \in Svc |-> <<>>] /\ rk = 0
-        /\ cq = <<>> /\ sq = <<>> /\ live = {} /\ now = 0 /\ timer = 0 /\ start = 0
+        /\ cq = <<>> /\ sq = <<>> /\ live = {} /\ since = 0 /\ due = FALSE
         /\ waiting = FALSE /\ replies = <<>>
-        /\ calls = <<>> /\ created = [k \in Svc |-> 0] /\ drained = {} /\ nconn = 0 /\ nnr = 0 /\ ncp = 0
+        /\ calls = <<>> /\ called = {} /\ lastCalled = 0 /\ fifoOk = TRUE /\ created = [k \in Svc |-> 0] /\ drained = {} /\ nconn = 0 /\ nnr = 0 /\ ncp = 0
         /\ nstops = 0 /\ pe = <<>> /\ act = [n |-> "Init"]
 
 (* ------------------------------------------------------------------------------------------- *)
 (* the poll, as a function on a machine record                                                    *)
 (* ------------------------------------------------------------------------------------------- *)
 Machine == [ws |-> ws, status |-> status, rs |-> rs, fs |-> fs, rk |-> rk, cq |-> cq, sq |-> sq, live |-> live,
-            timer |-> timer, start |-> start, waiting |-> waiting, replies |-> replies, calls |-> calls,
+            since |-> since, due |-> due, waiting |-> waiting, replies |-> replies, calls |-> calls,
+            called |-> called, lastCalled |-> lastCalled, fifoOk |-> fifoOk,
             created |-> created, drained |-> drained, ev |-> <<>>]
 
 Total(m) == Len(m.cq) + Cardinality(m.live)
@@ -71,7 +75,7 @@ HandleStop(m) ==
        ELSE IF g \/ ForcedWaits
          THEN \* graceful: Available services stop accepting; a 1 s progress timer starts
               [m0 EXCEPT !.status = [k \in Svc |-> IF @[k] = "Available" THEN "Stopping" ELSE @[k]],
-                         !.ws = "Shutdown", !.timer = now + 1, !.start = now,
+                         !.ws = "Shutdown", !.due = FALSE, !.since = 0,       \* 1 s progress timer, start_from = now
                          !.replies = IF m.waiting THEN Append(@, "dropped") ELSE @,   \* a second stop replaces the first
                          !.waiting = TRUE]
          ELSE [Ev(m0, [t |-> "reply", v |-> "false"]) EXCEPT
@@ -87,7 +91,9 @@ AvailLoop(m, first) ==
            ELSE LET idx == IF LifoQueue THEN Len(r[1].cq) ELSE 1
                     c   == r[1].cq[idx]
                     rest == [j \in 1..(Len(r[1].cq) - 1) |-> IF j < idx THEN r[1].cq[j] ELSE r[1].cq[j + 1]]
-                    m1  == Ev([r[1] EXCEPT !.cq = rest, !.live = @ \cup {c[2]}, !.calls = Append(@, c)],
+                    m1  == Ev([r[1] EXCEPT !.cq = rest, !.live = @ \cup {c[2]}, !.calls = Append(@, c),
+                                            !.called = @ \cup {c[2]}, !.fifoOk = @ /\ c[2] > r[1].lastCalled,
+                                            !.lastCalled = c[2]],
                               [t |-> "call", k |-> c[1], c |-> c[2]])
                 IN AvailLoop(m1, FALSE)
       [] r[2] = "false" -> PollTop([r[1] EXCEPT !.ws = "Unavailable"])
@@ -98,7 +104,7 @@ DrainQueue(m) ==
   IF m.cq = <<>> THEN m
   ELSE LET c == Head(m.cq) IN
        IF DrainCalls
-         THEN DrainQueue(Ev([m EXCEPT !.cq = Tail(@), !.live = @ \cup {c[2]}, !.calls = Append(@, c)],
+         THEN DrainQueue(Ev([m EXCEPT !.cq = Tail(@), !.live = @ \cup {c[2]}, !.calls = Append(@, c), !.called = @ \cup {c[2]}],
                             [t |-> "call", k |-> c[1], c |-> c[2]]))
          ELSE DrainQueue(Ev([m EXCEPT !.cq = Tail(@), !.drained = @ \cup {c[2]}], [t |-> "drain", c |-> c[2]]))
 
@@ -121,12 +127,12 @@ PollTop(m0) ==
                            [t |-> "create", k |-> k]))
     [] m.ws = "Shutdown" ->
          LET m1 == DrainQueue(m) IN
-           IF now < m1.timer THEN m1
+           IF ~m1.due THEN m1                                                 \* timer not elapsed: Pending
            ELSE IF Cardinality(m1.live) = 0 \/ GracefulRepliesEarly
              THEN [Ev(m1, [t |-> "reply", v |-> "true"]) EXCEPT !.replies = Append(@, "true"), !.ws = "Done", !.waiting = FALSE]
-           ELSE IF now - m1.start >= Timeout /\ ~IgnoreTimeout
+           ELSE IF m1.since >= Timeout /\ ~IgnoreTimeout
              THEN [Ev(m1, [t |-> "reply", v |-> "false"]) EXCEPT !.replies = Append(@, "false"), !.ws = "Done", !.waiting = FALSE]
-           ELSE [m1 EXCEPT !.timer = now + 1]
+           ELSE [m1 EXCEPT !.due = FALSE]                                      \* reset the timer: one more second
     [] OTHER -> AvailLoop(m, TRUE)                                              \* "Available"
 
 (* ------------------------------------------------------------------------------------------- *)
@@ -136,46 +142,49 @@ Poll ==
   /\ ws # "Done"
   /\ LET m == PollTop(Machine) IN
        /\ ws' = m.ws /\ status' = m.status /\ rs' = m.rs /\ fs' = m.fs /\ rk' = m.rk /\ cq' = m.cq /\ sq' = m.sq
-       /\ live' = m.live /\ timer' = m.timer /\ start' = m.start /\ waiting' = m.waiting /\ replies' = m.replies
-       /\ calls' = m.calls /\ created' = m.created /\ drained' = m.drained /\ pe' = m.ev
+       /\ live' = m.live /\ since' = m.since /\ due' = m.due /\ waiting' = m.waiting /\ replies' = m.replies
+       /\ calls' = m.calls /\ called' = m.called /\ lastCalled' = m.lastCalled /\ fifoOk' = m.fifoOk /\ created' = m.created /\ drained' = m.drained /\ pe' = m.ev
        /\ act' = [n |-> "Poll", ev |-> m.ev, ws |-> m.ws, replies |-> m.replies]
-  /\ UNCHANGED <<now, nconn, nnr, ncp, nstops>>
+  /\ UNCHANGED <<nconn, nnr, ncp, nstops>>
 
 \* the next poll_ready of service k answers a (0 Pending, 2 Err); appended to its script
 PushAnswer(k, a) ==
   /\ nnr < MaxNonReady /\ nnr' = nnr + 1 /\ ws # "Done"
   /\ rs' = [rs EXCEPT ![k] = Append(@, a)]
   /\ act' = [n |-> "PushAnswer", k |-> k, a |-> a] /\ pe' = <<>>
-  /\ UNCHANGED <<ws, status, fs, rk, cq, sq, live, now, timer, start, waiting, replies, calls, created, drained, nconn, ncp, nstops>>
+  /\ UNCHANGED <<ws, status, fs, rk, cq, sq, live, since, due, waiting, replies, calls, called, lastCalled, fifoOk, created, drained, nconn, ncp, nstops>>
 \* a Ready answer placed explicitly (so that Pending / Ready / Pending scripts exist)
 PushReady(k) ==
   /\ rs[k] # <<>> /\ Len(rs[k]) < 3 /\ ws # "Done"
   /\ rs' = [rs EXCEPT ![k] = Append(@, 1)]
   /\ act' = [n |-> "PushAnswer", k |-> k, a |-> 1] /\ pe' = <<>>
-  /\ UNCHANGED <<ws, status, fs, rk, cq, sq, live, now, timer, start, waiting, replies, calls, created, drained, nconn, nnr, ncp, nstops>>
+  /\ UNCHANGED <<ws, status, fs, rk, cq, sq, live, since, due, waiting, replies, calls, called, lastCalled, fifoOk, created, drained, nconn, nnr, ncp, nstops>>
 PushCreatePending(k) ==
   /\ ncp < MaxCreatePend /\ ncp' = ncp + 1 /\ ws # "Done"
   /\ fs' = [fs EXCEPT ![k] = Append(@, 0)]
   /\ act' = [n |-> "PushCreatePending", k |-> k] /\ pe' = <<>>
-  /\ UNCHANGED <<ws, status, rs, rk, cq, sq, live, now, timer, start, waiting, replies, calls, created, drained, nconn, nnr, nstops>>
+  /\ UNCHANGED <<ws, status, rs, rk, cq, sq, live, since, due, waiting, replies, calls, called, lastCalled, fifoOk, created, drained, nconn, nnr, nstops>>
 PushConn(k) ==
   /\ nconn < MaxConns /\ nconn' = nconn + 1 /\ ws # "Done"
   /\ cq' = Append(cq, <<k, nconn + 1>>)
   /\ act' = [n |-> "PushConn", k |-> k, c |-> nconn + 1] /\ pe' = <<>>
-  /\ UNCHANGED <<ws, status, rs, fs, rk, sq, live, now, timer, start, waiting, replies, calls, created, drained, nnr, ncp, nstops>>
+  /\ UNCHANGED <<ws, status, rs, fs, rk, sq, live, since, due, waiting, replies, calls, called, lastCalled, fifoOk, created, drained, nnr, ncp, nstops>>
 PushStop(g) ==
   /\ nstops < MaxStops /\ nstops' = nstops + 1 /\ ws # "Done"
   /\ sq' = Append(sq, g)
   /\ act' = [n |-> "PushStop", g |-> g] /\ pe' = <<>>
-  /\ UNCHANGED <<ws, status, rs, fs, rk, cq, live, now, timer, start, waiting, replies, calls, created, drained, nconn, nnr, ncp>>
+  /\ UNCHANGED <<ws, status, rs, fs, rk, cq, live, since, due, waiting, replies, calls, called, lastCalled, fifoOk, created, drained, nconn, nnr, ncp>>
 Finish(c) ==
   /\ c \in live /\ live' = live \ {c}
   /\ act' = [n |-> "Finish", c |-> c] /\ pe' = <<>>
-  /\ UNCHANGED <<ws, status, rs, fs, rk, cq, sq, now, timer, start, waiting, replies, calls, created, drained, nconn, nnr, ncp, nstops>>
+  /\ UNCHANGED <<ws, status, rs, fs, rk, cq, sq, since, due, waiting, replies, calls, called, lastCalled, fifoOk, created, drained, nconn, nnr, ncp, nstops>>
+\* one second passes (only observable while a graceful shutdown is waiting: the 1 s timer fires, time since the
+\* start of the shutdown grows; capped at the timeout, beyond which nothing changes)
 Tick ==
-  /\ now < MaxTicks /\ now' = now + 1
+  /\ ws = "Shutdown" /\ (~due \/ since < Timeout)
+  /\ due' = TRUE /\ since' = (IF since < Timeout THEN since + 1 ELSE since)
   /\ act' = [n |-> "Tick"] /\ pe' = <<>>
-  /\ UNCHANGED <<ws, status, rs, fs, rk, cq, sq, live, timer, start, waiting, replies, calls, created, drained, nconn, nnr, ncp, nstops>>
+  /\ UNCHANGED <<ws, status, rs, fs, rk, cq, sq, live, waiting, replies, calls, called, lastCalled, fifoOk, created, drained, nconn, nnr, ncp, nstops>>
 
 Next == \/ Poll \/ Tick
         \/ \E k \in Svc : PushAnswer(k, 0) \/ PushAnswer(k, 2) \/ PushReady(k) \/ PushCreatePending(k) \/ PushConn(k)
@@ -194,21 +203,21 @@ ReadyBlockBefore(e, p) ==       \* positions of the maximal block of "ready" eve
 CallsAfterFullReadyPass(e, nsvc) ==
   \A p \in 1..Len(e) : e[p].t = "call" =>
      LET blk == ReadyBlockBefore(e, p) IN
-       /\ \A j \in blk : e[j].a = 1
-       /\ \A k \in 1..nsvc : \E j \in blk : e[j].k = k
-C07_CallOnlyAfterAllReady == CallsAfterFullReadyPass(pe, K)
-\* connections are served in queue order, each by the service of its token
-C07_Fifo == \A a, b \in 1..Len(calls) : a < b => calls[a][2] < calls[b][2]
+       \A k \in 1..nsvc :
+          /\ \E j \in blk : e[j].k = k                                   \* every service was asked ...
+          /\ \A j \in blk : (e[j].k = k /\ \A i \in blk : e[i].k = k => i <= j) => e[j].a = 1   \* ... and its last answer was Ready
+C07_CallOnlyAfterAllReadyStep == CallsAfterFullReadyPass(pe', K)
+\* connections are served in queue order
+C07_Fifo == fifoOk
 \* only a service whose readiness check failed is re-created (once per failure)
 Failures(e, k) == Cardinality({p \in 1..Len(e) : e[p].t = "ready" /\ e[p].k = k /\ e[p].a = 2})
 C07_RestartOnlyFailedStep ==
   \A k \in Svc : created'[k] - created[k] <= Failures(pe', k) + (IF status[k] = "Restarting" THEN 1 ELSE 0)
-\* nothing queued is lost: at rest with every service ready the queue is empty
-AtRest == ws = "Available" /\ \A k \in Svc : rs[k] = <<>>
-C07_NoneLost == (AtRest /\ act.n = "Poll") => cq = <<>>
+\* nothing queued is lost: after a poll that ends Available with every script exhausted the queue is empty
+C07_NoneLostStep == (act'.n = "Poll" /\ ws' = "Available" /\ \A k \in Svc : rs'[k] = <<>>) => cq' = <<>>
 C07_AllAccounted == \A c \in 1..nconn : Cardinality({x \in {"q", "called", "drained"} :
                        \/ x = "q" /\ \E j \in 1..Len(cq) : cq[j][2] = c
-                       \/ x = "called" /\ \E j \in 1..Len(calls) : calls[j][2] = c
+                       \/ x = "called" /\ c \in called
                        \/ x = "drained" /\ c \in drained}) = 1
 
 \* C06 (worker side)
@@ -217,15 +226,19 @@ C06w_RepliesStep ==
      \/ pe'[p].v = "true"  /\ (Cardinality(live) = 0)                        \* idle, or graceful and all finished
      \/ pe'[p].v = "false" /\ (Len(cq) + Cardinality(live) > 0)              \* forced, or timed out
 C06w_GracefulNotEarlyStep ==   \* a waiting (graceful) stop is answered false only after the timeout
-  (waiting /\ ~waiting' /\ Len(replies') > Len(replies) /\ replies'[Len(replies')] = "false") => now - start >= Timeout
-C06w_TrueMeansIdle == \A p \in 1..Len(pe) : (pe[p].t = "reply" /\ pe[p].v = "true") => live = {}
+  (waiting /\ ~waiting' /\ Len(replies') > Len(replies) /\ replies'[Len(replies')] = "false") => since >= Timeout
+\* a forced stop (and any stop of an idle worker) is answered by the poll that receives it
+C06w_ForcedImmediateStep ==
+  (act'.n = "Poll" /\ sq # <<>> /\ (~Head(sq) \/ Len(cq) + Cardinality(live) = 0)) => \E p \in 1..Len(pe') : pe'[p].t = "reply"
+C06w_TrueMeansIdleStep == \A p \in 1..Len(pe') : (pe'[p].t = "reply" /\ pe'[p].v = "true") => live' = {}
 \* C01: connections queued at shutdown are released, never served
-C01_DrainReleases == \A c \in drained : ~\E j \in 1..Len(calls) : calls[j][2] = c
-C01_NoCallInShutdown == (ws \in {"Shutdown", "Done"} /\ act.n = "Poll" /\ waiting) => \A p \in 1..Len(pe) : pe[p].t # "call"
+C01_DrainReleases == drained \cap called = {}
+C01_NoCallInShutdownStep == (act'.n = "Poll" /\ waiting') => \A p \in 1..Len(pe') : pe'[p].t # "call"
 \* liveness: every stop is answered
 C06w_StopAnswered == [](sq # <<>> => <>(sq = <<>>)) /\ [](waiting => <>(~waiting))
 
-Steps == [][C07_RestartOnlyFailedStep /\ C06w_RepliesStep /\ C06w_GracefulNotEarlyStep]_vars
+Steps == [][/\ C07_CallOnlyAfterAllReadyStep /\ C07_RestartOnlyFailedStep /\ C07_NoneLostStep
+            /\ C06w_RepliesStep /\ C06w_GracefulNotEarlyStep /\ C06w_ForcedImmediateStep /\ C06w_TrueMeansIdleStep /\ C01_NoCallInShutdownStep]_vars
 
 LogEdge == PrintT(<<"EDGE", ToJson([from |-> View, act |-> act', to |-> View'])>>)
 LogInit == TLCGet("level") > 1 \/ PrintT(<<"INIT", ToJson([from |-> View])>>)
